@@ -6,7 +6,7 @@ from .. import bits as B_
 from ..astutil import norm_nc, dotted, effective, method_call
 from ..cfg import canon_test, cfg_of, fact_key, norm, walk_own
 from ..consteval import Scope, class_const, fold_in
-from ..flow import consumed_argument_rules, one_shot_callback_rules
+from ..flow import byte_image, consumed_argument_rules, one_shot_callback_rules
 from ..mutate import B, M
 
 PROP = 'C14'
@@ -78,7 +78,19 @@ def check(ctx):
     body = [norm(s) for s in wr.node.body]
     i_tok = body.index('image = EEPROM_TOKEN + image') if 'image = EEPROM_TOKEN + image' in body else -1
     i_sum = body.index("image += struct.pack('B', self._checksum256(image))") if "image += struct.pack('B', self._checksum256(image))" in body else -1
-    ctx.inst('R1', wr, 'token-then-checksum', 0 <= i_tok < i_sum, 'token is prepended, then the checksum over token+fields is appended as the last byte')
+    # the image handed to the memory, followed back through however it is assembled: token, fields, then one byte = checksum256 of
+    # everything before it
+    img = byte_image(wr, lambda c: method_call(c, 'write') and norm(c.func.value) == 'self.mem_handler')
+    if img:
+        okimg = True
+        for conds_, pieces in img.items():
+            if not any(t_ == "self.elements['version'] == %d" % v_ and pol_ for v_ in (0, 1) for t_, pol_ in conds_):
+                continue                                   # (an unknown version writes no fields; not part of the claim)
+            okimg = okimg and len(pieces) == 3 and pieces[0] == 'token(EEPROM_TOKEN)' and pieces[1].startswith('pack(') and \
+                pieces[2].startswith('byte(self._checksum256(') and pieces[2].endswith('[%s])' % ' ++ '.join(pieces[:2]))
+        ctx.inst('R1', wr, 'token-then-checksum', okimg, 'image = token, fields, checksum256(token + fields) as the last byte; images %s' % {k: v for k, v in list(img.items())[:2]})
+    else:
+        ctx.inst('R1', wr, 'token-then-checksum', 0 <= i_tok < i_sum, 'token is prepended, then the checksum over token+fields is appended as the last byte')
     gr = cfg_of(rd)
     ups = unpacks(rd)
     u0 = [c for c in ups if fold_in(rd, c.args[0]) == '<BBBff']
@@ -179,9 +191,25 @@ def check(ctx):
     ctx.inst('R3', par, 'tlv-area', 'elem_data = %s[2:-1]' % d in [norm(s) for s in walk_own(par.node) if isinstance(s, ast.Assign)], 'TLVs lie between the 2-byte (version, length) prefix and the CRC')
     wl = [l for l in walk_own(ow_w.node) if isinstance(l, ast.For)]
     wb = [norm(s) for s in wl[0].body] if wl else []
-    ctx.inst('R3', ow_w, 'tlv-writer', len(wl) == 1 and "elem += struct.pack('BB', key_encoding, len(elem_string))" in wb and "elem += bytearray(elem_string.encode('ISO-8859-1'))" in wb and
+    owimg = byte_image(ow_w, lambda c: method_call(c, 'write') and norm(c.func.value) == 'self.mem_handler')
+    if owimg and len(owimg) == 1:
+        import re as _re
+        pieces = list(owimg.values())[0]
+        each_re = _re.compile(r"^each\((\w+) in reversed\(list\(self\.elements\.keys\(\)\)\): pack\(BB; self\._rev_element_mapping\[\1\], len\((\w+)\)\) \+\+ enc\(\2\.encode\('ISO-8859-1'\)\)\)$")
+        each = [p_ for p_ in pieces if p_.startswith('each(')]
+        okt = len(each) == 1 and each_re.match(each[0]) is not None
+        if okt:
+            sv_ = each_re.match(each[0]).group(2)
+            okt = any(isinstance(s_, ast.Assign) and norm(s_.targets[0]) == sv_ and norm(s_.value) == 'self.elements[%s]' % each_re.match(each[0]).group(1) for s_ in walk_own(ow_w.node))
+        ctx.inst('R3', ow_w, 'tlv-writer', okt, 'each element written as (id, len) then the bytes; found %s' % each[:1])
+        oka = len(pieces) == 5 and each and pieces[3] == each[0] and _re.match(r'^pack\(BB; 0, len\(\w+\)\[', pieces[2]) is not None and pieces[2].endswith('[%s])' % each[0]) and \
+            _re.match(r'^byte\(crc32\(\w+\) & 255\[', pieces[4]) is not None and pieces[4].endswith('[%s])' % ' ++ '.join(pieces[2:4])) and \
+            pieces[0].startswith('pack(<BIBB; 235,') and _re.match(r'^byte\(crc32\(\w+\) & 255\[', pieces[1]) is not None and pieces[1].endswith('[%s])' % pieces[0])
+        ctx.inst('R3', ow_w, 'area-writer', bool(oka), 'image = header, crc(header), then element area (0, len) + TLVs + crc32(area) & 0xff; pieces %s' % [p_[:40] for p_ in pieces])
+    else:
+      ctx.inst('R3', ow_w, 'tlv-writer', len(wl) == 1 and "elem += struct.pack('BB', key_encoding, len(elem_string))" in wb and "elem += bytearray(elem_string.encode('ISO-8859-1'))" in wb and
              wb.index("elem += struct.pack('BB', key_encoding, len(elem_string))") < wb.index("elem += bytearray(elem_string.encode('ISO-8859-1'))"), 'each element written as (id, len) then the bytes')
-    ctx.inst('R3', ow_w, 'area-writer', all(x in st for x in ["elem_data = struct.pack('BB', 0, len(elem))", 'elem_data += elem', 'elem_crc = crc32(elem_data) & 255', "elem_data += struct.pack('B', elem_crc)",
+      ctx.inst('R3', ow_w, 'area-writer', all(x in st for x in ["elem_data = struct.pack('BB', 0, len(elem))", 'elem_data += elem', 'elem_crc = crc32(elem_data) & 255', "elem_data += struct.pack('B', elem_crc)",
                                                               'data = header_data + elem_data']), 'element area = (0, len) + TLVs + crc32(area) & 0xff, placed right after the header')
     km = fold_in(ow_w, m.cls(OW, 'OWElement').consts['element_mapping'])
     ctx.inst('R3', (OW, 'OWElement'), 'element-ids', km == {1: 'Board name', 2: 'Board revision', 3: 'Custom'}, 'element id table %s' % (km,))
